@@ -35,8 +35,8 @@ CHECKS["C08"] = dict(
          "of the package; every popped value flows to a return or to the decoder's buffer; the scheduled queue is sorted on "
          "the time component only and every head-pop is preceded by that sort and guarded by a due test; the blocking wait "
          "is dominated (CFG) by the empty branches of all queues and by a failed find_key(); wake-up protocol order "
-         "(append before os.write, readers registered, select watches stdin + wake-up fd + readers); paste loop refill "
-         "threshold against the folded MAX_KEYPRESS_SIZE; the wait reports a timeout only when select returned nothing. "
+         "(append before os.write, readers registered, select watches stdin + wake-up fd + readers); READ_SIZE >= MAX_KEYPRESS_SIZE; "
+         "the wait reports a timeout only when select returned nothing. "
          "Interpreted parts: the key finder on byte buffers derived from the key tables (returns the first keypress of the "
          "reference segmentation, leaves exactly the rest, `full` means buffer exhausted), unget_bytes (appends in order), "
          "_nonblocking_read with os.read stubbed (every byte buffered once, in order; nothing on EOF / would-block), the "
